@@ -48,7 +48,7 @@ CHECKS += [
              "graph is replayed on the real driver and compared state by state; (c) BFS over pipeflow call/edit histories "
              "(depth 2/3) on three nets with a monitor recomputing the last change of every unknown; (d) every single "
              "(thorough: adjacent pair of) faulty spsolve answer at every solve index after a successful run; (e) all "
-             "two-junction networks x solver settings x extreme inner tolerances: a refusal is PipeflowNotConverged, never "
+             "two-junction networks (incl. every pair of parallel branch kinds) x solver settings x extreme inner tolerances: a refusal is PipeflowNotConverged, never "
              "another exception type, and leaves no results.",
      "note": "TLC trusted for the model; the stub linearisation reproduces the interface of solve_hydraulics / "
              "solve_temperature / solve_bidirectional (argument lists of bidirectional are read from its source)"},
